@@ -35,17 +35,66 @@ _SEEN = {}
 PER_SIGNATURE = 4
 
 
-def report(ctx, signature, case):
+def report(ctx, signature, case, finding=None):
     """At most PER_SIGNATURE replay files per kind of failure (the rest are counted in the summary line)."""
+    if finding:                       # one family of failures with a name: a handful of replay files is enough
+        signature = (finding, signature[0])
     _SEEN[signature] = _SEEN.get(signature, 0) + 1
     if _SEEN[signature] <= PER_SIGNATURE:
-        ctx.violation(case)
+        ctx.violation(case, finding=finding)
 
 
 def summary():
     for sig, n in sorted(_SEEN.items(), key=repr):
         if n > PER_SIGNATURE:
             print('  (%d more failing cases like %r not written as replay files)' % (n - PER_SIGNATURE, sig), flush=True)
+
+
+# ---- array properties: the outcome depends on the VALUES handed over, never on their memory layout ----------
+LAYOUTS1 = ['plain', 'readonly', 'strided', 'swapped']
+LAYOUTS2 = ['plain', 'readonly', 'strided', 'fortran', 'swapped']
+_ROT = [random.Random(0)]
+
+
+def dress(a, layout):
+    """The same values as `a` in another memory layout: read-only, a non-contiguous view (every second element of a
+    longer array / Fortran order), or byte-swapped (as read from a FITS file)."""
+    a = np.asarray(a)
+    if layout == 'plain' or a.ndim == 0:
+        return a
+    if layout == 'readonly':
+        b = a.copy()
+        b.setflags(write=False)
+        return b
+    if layout == 'strided':
+        big = np.zeros(a.shape[:-1] + (2 * a.shape[-1],), dtype=a.dtype)
+        big[..., 1::2] = 77
+        big[..., ::2] = a
+        return big[..., ::2]
+    if layout == 'fortran':
+        return np.asfortranarray(a) if a.ndim >= 2 else dress(a, 'strided')
+    if layout == 'swapped':
+        return a.astype(a.dtype.newbyteorder()) if a.dtype.itemsize > 1 else a
+    raise core.MachineryError('unknown layout ' + layout)
+
+
+def rotate(ndim=1):
+    """The next layout (a seeded pseudo-random rotation, re-seeded in run(); one draw per array handed over)."""
+    return _ROT[0].choice(LAYOUTS2 if ndim >= 2 else LAYOUTS1)
+
+
+class Layouts(dict):
+    """The layout of every array handed over in one call; `forced` (from a replay file) wins over the rotation."""
+
+    def __init__(self, forced=None):
+        dict.__init__(self)
+        self.forced = forced or {}
+
+    def give(self, name, a):
+        a = np.asarray(a)
+        lay = self.forced.get(name) or rotate(a.ndim)
+        self[name] = lay
+        return dress(a, lay)
 
 
 def fq(v):
@@ -94,6 +143,10 @@ def basis_calls(basis, m, xs):
     rev = list(range(len(xs)))[::-1]
     # a non-contiguous view, abscissae in reverse order
     yield 'f64-strided', (lambda: fn(np.array([xf[::-1], xf[::-1]], dtype=np.float64).T[:, 0], m)), rev, TOL64
+    yield 'f64-readonly', (lambda: fn(dress(np.array(xf, dtype=np.float64), 'readonly'), m)), list(range(len(xs))), TOL64
+    yield 'f64-swapped', (lambda: fn(dress(np.array(xf, dtype=np.float64), 'swapped'), m)), list(range(len(xs))), TOL64
+    yield 'f32-swapped-strided', (lambda: fn(dress(dress(np.array(xf, dtype=np.float32), 'swapped'), 'strided'), m)), \
+        list(range(len(xs))), TOL32
     ints = [k for k, x in enumerate(xs) if x.denominator == 1]
     if ints:
         yield 'int-array', (lambda: fn(np.array([int(xs[k]) for k in ints], dtype=np.int64), m)), ints, TOL64
@@ -101,6 +154,9 @@ def basis_calls(basis, m, xs):
         yield 'py-float', (lambda k=k: fn(xf[k], m)), [k], TOL64
         yield 'np-float64', (lambda k=k: fn(np.float64(xf[k]), m)), [k], TOL64
         yield 'array1', (lambda k=k: fn(np.array([xf[k]]), m)), [k], TOL64
+        # a scalar abscissa held in a zero-dimensional array
+        yield '0d-f64', (lambda k=k: fn(np.array(xf[k], dtype=np.float64), m)), [k], TOL64
+        yield '0d-f32', (lambda k=k: fn(np.asarray(np.float32(xf[k])), m)), [k], TOL32
         if x.denominator == 1:
             yield 'py-int', (lambda k=k: fn(int(xs[k]), m)), [k], TOL64
 
@@ -157,7 +213,10 @@ def fit_conventions(c):
     return out
 
 
-def call_fit(c, conv):
+LAST_LAYOUT = {}
+
+
+def call_fit(c, conv, layouts=None):
     from pydl.pydlutils.trace import func_fit
     dt = np.float32 if conv == 'full32' else np.float64
     x = np.array([fl(v) for v in c['xs']], dtype=dt)
@@ -171,6 +230,11 @@ def call_fit(c, conv):
         w = np.where(w == 0, -0.0, w)
     if conv == 'intans64':         # prescribed values as an integer array (0 is the integer 0)
         ians = np.array([int(fq(v)) for v in c['ians']], dtype=np.int64)
+    lays = Layouts(layouts)
+    x, y, w = lays.give('x', x), lays.give('y', y), lays.give('invvar', w)
+    ia, ians = lays.give('ia', ia), lays.give('inputans', ians)
+    LAST_LAYOUT.clear()
+    LAST_LAYOUT.update(lays)
     kw = {'invvar': w, 'ia': ia, 'inputans': ians, 'function_name': name}
     if conv == 'minimal64':
         if all(v == (1, 1) for v in c['w']):
@@ -209,36 +273,59 @@ def judge_fit(c, exp, conv, res, yfit):
     return None
 
 
-def check_fit(ctx, c, exp):
+def layout_signature(lays, what):
+    """Which layout matters for the de-duplication of failures that are exceptions: only 'something is byte-swapped /
+    read-only' - not the whole combination."""
+    if not what.startswith('raised'):
+        return ()
+    return tuple(sorted({v for v in lays.values() if v in ('swapped', 'readonly', '0d')}))
+
+
+def odd_layouts(lays):
+    return {k: v for k, v in lays.items() if v != 'plain'}
+
+
+def check_fit(ctx, c, exp, only=None, layouts=None):
     n = 0
     for conv in fit_conventions(c):
+        if only and conv != only:
+            continue
         ctx.evaluated(1, 'fit-%s-%s' % (c.get('fam', 'replay'), conv))
         n += 1
+        LAST_LAYOUT.clear()
         try:
-            res, yfit = call_fit(c, conv)
+            res, yfit = call_fit(c, conv, layouts)
             what = judge_fit(c, exp, conv, res, yfit)
         except Exception as ex:
             what = 'raised %s: %s' % (type(ex).__name__, str(ex)[:160])
         if what:
-            report(ctx, ('fit', c['basis'], c.get('fam'), conv, what.split(':')[0].rstrip('0123456789[] ')),
-                   {'what': 'func_fit %s nc=%d ia=%s [%s/%s]: %s' % (c['basis'], c['nc'], [int(b) for b in c['ia']],
-                                                                     c.get('fam'), conv, what),
-                    'part': 'fit', 'conv': conv, 'call': jsonable(c), 'expected': jsonable(exp)})
+            lays = dict(LAST_LAYOUT)
+            # D-C13-3: byte-swapped x and at least two free coefficients -> the dtype assertion of func_fit fails
+            finding = 'D-C13-3' if (what.startswith('raised AssertionError') and lays.get('x') == 'swapped') else None
+            report(ctx, ('fit', c['basis'], c.get('fam'), conv, what.split(':')[0].rstrip('0123456789[] '),
+                         layout_signature(lays, what)),
+                   {'what': 'func_fit %s nc=%d ia=%s [%s/%s, layouts %s]: %s' % (
+                       c['basis'], c['nc'], [int(b) for b in c['ia']], c.get('fam'), conv, odd_layouts(lays) or 'plain', what),
+                    'part': 'fit', 'conv': conv, 'layouts': lays, 'call': jsonable(c), 'expected': jsonable(exp)},
+                   finding=finding)
     return n
 
 
-def check_hist(ctx, h, exp):
+def check_hist(ctx, h, exp, layouts=None):
     """A call history: the calls of h one after the other, reusing ONE array object for each of x, y, invvar, ia and
     inputans (only the mask is rewritten in place between the calls); every call is judged against the outcome the
     specification demands of that call alone."""
     from pydl.pydlutils.trace import func_fit
     calls = h['calls']
     c0 = calls[0]
-    x = np.array([fl(v) for v in c0['xs']])
-    y = np.array([fl(v) for v in c0['y']])
-    w = np.array([fl(v) for v in c0['w']])
-    ians = np.array([fl(v) for v in c0['ians']])
-    ia = np.ones(int(c0['nc']), dtype=bool)
+    lays = Layouts(dict(layouts or {}))
+    if 'ia' not in lays.forced:        # the harness rewrites the mask in place between the calls: never read-only
+        lays.forced['ia'] = 'strided' if rotate() in ('strided', 'swapped') else 'plain'
+    x = lays.give('x', np.array([fl(v) for v in c0['xs']]))
+    y = lays.give('y', np.array([fl(v) for v in c0['y']]))
+    w = lays.give('invvar', np.array([fl(v) for v in c0['w']]))
+    ians = lays.give('inputans', np.array([fl(v) for v in c0['ians']]))
+    ia = lays.give('ia', np.ones(int(c0['nc']), dtype=bool))
     ctx.evaluated(len(calls), 'hist-shared-arrays')
     for k, c in enumerate(calls):
         what = None
@@ -257,11 +344,14 @@ def check_hist(ctx, h, exp):
         except Exception as ex:
             what = 'raised %s' % describe(ex)
         if what:
-            report(ctx, ('hist', h['basis'], what.split(':')[0].rstrip('0123456789[] ')),
+            finding = 'D-C13-3' if (what.startswith('raised AssertionError') and lays.get('x') == 'swapped') else None
+            report(ctx, ('hist', h['basis'], what.split(':')[0].rstrip('0123456789[] '),
+                         layout_signature(lays, what)),
                    {'what': 'func_fit history %s nc=%d, call %d of %d with ia=%s (same x, y, invvar, ia, inputans arrays as the '
-                            'calls before it, masks %s): %s' % (h['basis'], h['nc'], k + 1, len(calls), [int(b) for b in c['ia']],
-                                                               [[int(b) for b in cc['ia']] for cc in calls[:k]], what),
-                    'part': 'hist', 'call': jsonable(h), 'expected': jsonable(exp)})
+                            'calls before it, masks %s; layouts %s): %s' % (
+                                h['basis'], h['nc'], k + 1, len(calls), [int(b) for b in c['ia']],
+                                [[int(b) for b in cc['ia']] for cc in calls[:k]], odd_layouts(lays) or 'plain', what),
+                    'part': 'hist', 'layouts': dict(lays), 'call': jsonable(h), 'expected': jsonable(exp)}, finding=finding)
             break        # the arrays may be damaged: later calls of this history say nothing new
     return len(calls)
 
@@ -312,10 +402,10 @@ def number_form(v, conv):
     return fl(v)
 
 
-def build_tset(c, exp, conv):
+def build_tset(c, exp, conv, lays):
     from pydl.pydlutils.trace import TraceSet, xy2traceset
-    xpos = mat(c['xpos'])
-    ypos = mat(c['ypos'])
+    xpos = lays.give('xpos', mat(c['xpos']))
+    ypos = lays.give('ypos', mat(c['ypos']))
     w = mat(c['w'])
     j = c['jump']
     if conv == 'fits':
@@ -329,20 +419,24 @@ def build_tset(c, exp, conv):
     if j['on']:
         kw['xjumplo'], kw['xjumphi'], kw['xjumpval'] = [number_form(j[k], conv) for k in ('lo', 'hi', 'val')]
     if conv == 'xy2traceset-invvar':
-        kw['invvar'] = w
+        kw['invvar'] = lays.give('invvar', w)
+        # scalars held in zero-dimensional arrays, in every other case of the rotation
+        if rotate() in ('readonly', 'swapped') or lays.forced.get('scalars') == '0d':
+            lays['scalars'] = '0d'
+            kw = {k: (np.array(v) if isinstance(v, (int, float)) else v) for k, v in kw.items()}
         return xy2traceset(xpos, ypos, **kw), xpos
     if conv == 'xy2traceset-negzero':
         # zeros written as -0.0 everywhere: keywords, zero weights, zero positions; no rejection iterations
-        kw['invvar'] = np.where(w == 0, -0.0, w)
+        kw['invvar'] = lays.give('invvar', np.where(w == 0, -0.0, w))
         kw['maxiter'] = 0
-        xpos = np.where(xpos == 0, -0.0, xpos)
+        xpos = dress(np.where(np.asarray(xpos) == 0, -0.0, np.asarray(xpos)), lays['xpos'])
         return xy2traceset(xpos, ypos, **kw), xpos
     # the zero-weight points go through inmask, the other weights (if not all one) through invvar
     if conv == 'TraceSet-inmask':
-        kw['inmask'] = w > 0
+        kw['inmask'] = lays.give('inmask', w > 0)
     wpos = np.where(w > 0, w, 1.0)
     if not (wpos == 1).all():
-        kw['invvar'] = wpos
+        kw['invvar'] = lays.give('invvar', wpos)
     if c['basis'] == 'legendre':
         del kw['func']
     if int(c['nc']) == 3:
@@ -408,24 +502,29 @@ def judge_tset(c, exp, conv, t, xpos):
     return near_matrix(yg, exp['ygrid'], 'traceset2xy() on the default grid')
 
 
-def check_tset(ctx, c, exp):
+def check_tset(ctx, c, exp, only=None, layouts=None):
     n = 0
     for conv in tset_conventions(c):
+        if only and conv != only:
+            continue
         ctx.evaluated(1, 'tset-' + conv)
         n += 1
+        lays = Layouts(layouts)
         try:
-            t, xpos = build_tset(c, exp, conv)
+            t, xpos = build_tset(c, exp, conv, lays)
             what = judge_tset(c, exp, conv, t, xpos)
         except Exception as ex:
             what = 'raised %s: %s' % (type(ex).__name__, str(ex)[:160])
         if what:
             j = c['jump']
-            report(ctx, ('tset', c['basis'], conv, bool(j['on']), what.split(':')[0].split('[')[0]), {
-                'what': 'trace set %s nc=%d nTrace=%d jump=%s xmin=%s xmax=%s [%s]: %s' % (
+            report(ctx, ('tset', c['basis'], conv, bool(j['on']), what.split(':')[0].split('[')[0],
+                         layout_signature(lays, what)), {
+                'what': 'trace set %s nc=%d nTrace=%d jump=%s xmin=%s xmax=%s [%s, layouts %s]: %s' % (
                 c['basis'], c['nc'], len(c['xpos']),
                 (str(fq(j['lo'])), str(fq(j['hi'])), str(fq(j['val']))) if j['on'] else None,
-                str(fq(c['xmin'])) if c['gmin'] else None, str(fq(c['xmax'])) if c['gmax'] else None, conv, what),
-                'part': 'tset', 'conv': conv, 'call': jsonable(c), 'expected': jsonable(exp)})
+                str(fq(c['xmin'])) if c['gmin'] else None, str(fq(c['xmax'])) if c['gmax'] else None, conv,
+                odd_layouts(lays) or 'plain', what),
+                'part': 'tset', 'conv': conv, 'layouts': dict(lays), 'call': jsonable(c), 'expected': jsonable(exp)})
     return n
 
 
@@ -500,8 +599,8 @@ def basis_records(rng, n):
     recs = []
     for _ in range(n):
         basis = rng.choice(['legendre', 'chebyshev', 'poly', 'chebyshev_split'])
-        conv = rng.choice(['f64', 'f64', 'f32', 'scalar', 'npscalar', 'fortran'])
-        k = 1 if conv in ('scalar', 'npscalar') else rng.randint(1, 7)
+        conv = rng.choice(['f64', 'f64', 'f32', 'scalar', 'npscalar', 'fortran', '0d', '0d32', 'readonly', 'swapped', 'swapped32'])
+        k = 1 if conv in ('scalar', 'npscalar', '0d', '0d32') else rng.randint(1, 7)
         xs = [rand_rat(rng, rng.choice([1, 2, 2, 3, 3, 4, 5, 6, 7, 8])) for _ in range(k)]
         top = min(MAXDEG[x.denominator] for x in xs) + (2 if basis == 'chebyshev_split' else 1)
         m = rng.randint(2 if basis == 'chebyshev_split' else 1, top)
@@ -513,12 +612,22 @@ def basis_records(rng, n):
             arg = np.float64(xf[0])
         elif conv == 'f32':
             arg = np.array(xf, dtype=np.float32)
+        elif conv == '0d':
+            arg = np.array(xf[0], dtype=np.float64)                 # a scalar in a zero-dimensional array
+        elif conv == '0d32':
+            arg = np.asarray(np.float32(xf[0]))
+        elif conv == 'readonly':
+            arg = dress(np.array(xf, dtype=np.float64), 'readonly')
+        elif conv == 'swapped':
+            arg = dress(np.array(xf, dtype=np.float64), 'swapped')
+        elif conv == 'swapped32':
+            arg = dress(dress(np.array(xf, dtype=np.float32), 'swapped'), 'strided')
         elif conv == 'fortran':
             arg = np.array([xf, xf], dtype=np.float64).T[:, 0]      # a non-contiguous view
         else:
             arg = np.array(xf, dtype=np.float64)
         rec = {'kind': 'basis', 'basis': basis, 'm': m, 'xs': [rq(x) for x in xs], 'rows': -1, 'cols': -1, 'vals': [],
-               'tol': TOLU32 if conv == 'f32' else TOLU64, 'conv': conv, 'exc': ''}
+               'tol': TOLU32 if conv in ('f32', '0d32', 'swapped32') else TOLU64, 'conv': conv, 'exc': ''}
         snap = Snap(x=arg)
         try:
             a = np.asarray(fn(arg, m))
@@ -584,6 +693,10 @@ def fit_records(rng, n):
             wa = np.where(wa == 0, -0.0, wa)
         elif form == 'intans':         # prescribed values as an integer array
             ansa = np.array([int(v) for v in ians], dtype=np.int64)
+        layout = {nme: rng.choice(LAYOUTS1) for nme in ('x', 'y', 'invvar', 'inputans')}
+        layout['ia'] = rng.choice(['plain', 'strided'])         # (rewritten in place between the calls of a history)
+        xa, ya, wa = dress(xa, layout['x']), dress(ya, layout['y']), dress(wa, layout['invvar'])
+        ansa, iaa = dress(ansa, layout['inputans']), dress(iaa, layout['ia'])
         hist += 1
         for call, mk in enumerate(masks):
             iaa[:] = mk
@@ -593,7 +706,8 @@ def fit_records(rng, n):
                 kw['inputans'] = ansa
             rec = {'kind': 'fit', 'basis': basis, 'nc': nc, 'xs': [rq(v) for v in xs], 'y': [rq(v) for v in y],
                    'w': [rq(v) for v in w], 'ia': list(mk), 'ians': [rq(v) for v in ians], 'res': [], 'yfit': [],
-                   'tol': TOLU64, 'exc': '', 'hist': hist, 'call': call, 'ncalls': ncalls}
+                   'tol': TOLU64, 'exc': '', 'hist': hist, 'call': call, 'ncalls': ncalls,
+                   'layout': '/'.join('%s=%s' % kv for kv in sorted(layout.items()) if kv[1] != 'plain') or 'plain'}
             snap = Snap(x=xa, y=ya, invvar=wa, ia=iaa, inputans=ansa)
             try:
                 res, yfit = func_fit(xa, ya, nc, **kw)
@@ -602,6 +716,8 @@ def fit_records(rng, n):
             except Exception as ex:
                 rec['exc'] = describe(ex)
                 rec['res'], rec['yfit'] = [], []
+                if isinstance(ex, AssertionError) and layout['x'] == 'swapped':
+                    rec['finding'] = 'D-C13-3'
             recs.append(rec)
             nfit += 1
             recs.append(unchanged(snap, 'func_fit', hist=hist, call_index=call, ncalls=ncalls))
@@ -661,7 +777,8 @@ def tseval_records(rng, n):
         xp = [[F(rng.randint(4 * a, 4 * b), rng.choice([1, 2, 4, 4])) for _ in range(k)] for _ in range(nt)]
         xp = [[min(max(x, F(a)), F(b)) for x in row] for row in xp]
         cf = np.array([[float(v) for v in r] for r in coeff])
-        xpa = np.array([[float(v) for v in r] for r in xp])
+        lay = rng.choice(LAYOUTS2)
+        xpa = dress(np.array([[float(v) for v in r] for r in xp]), lay)
         exc = ''
         first = rng.random() < 0.5
         snap = Snap(xpos=xpa)
@@ -684,7 +801,7 @@ def tseval_records(rng, n):
                      'xmin': rq(xmin), 'xmax': rq(xmax),
                      'jump': {'on': on, 'lo': rq(lo), 'hi': rq(hi), 'val': rq(val)}, 'ign': bool(ign),
                      'xp': [[rq(v) for v in r] for r in xp], 'vals': vals, 'grid': gs, 'gi': gi, 'gvals': gvals,
-                     'tol': TOLU64, 'exc': exc})
+                     'tol': TOLU64, 'exc': exc, 'layout': lay})
         recs.append(unchanged(snap, 'traceset2xy', basis=basis, nc=nc))
     return recs
 
@@ -705,6 +822,8 @@ def limits_records(rng, n):
             xpos[1, :] += 0.5
             dmax = F(b) + F(1, 2)
         ypos = 3.0 + 0.01 * xpos + 1e-4 * xpos ** 2
+        lay = rng.choice(LAYOUTS2)
+        xpos, ypos = dress(xpos, lay), dress(ypos, rng.choice(LAYOUTS2))
         cmin = [None, dmin - 1, dmin - F(1, 4), dmin - 7]
         if dmin > 0:
             cmin += [F(0), F(0), F(0)]
@@ -726,7 +845,7 @@ def limits_records(rng, n):
         rec = {'kind': 'limits', 'gmin': xmin is not None, 'gmax': xmax is not None, 'xmin': rq(xmin if xmin is not None else F(0)),
                'xmax': rq(xmax if xmax is not None else F(0)), 'xpos': [[rq(dmin), rq(dmax)]], 'nTrace': nt,
                'omin': [0, 1], 'omax': [0, 1], 'oexact': False, 'grid': grid_summary(np.zeros((0, 0)), nt), 'exc': '',
-               'keywords': [repr(kw.get('xmin')), repr(kw.get('xmax'))]}
+               'keywords': [repr(kw.get('xmin')), repr(kw.get('xmax'))], 'layout': lay}
         try:
             t = (xy2traceset if it % 2 else TraceSet)(xpos, ypos, **kw)
             om, ox = F(float(t.xmin)), F(float(t.xmax))
@@ -812,6 +931,14 @@ def fit_law_records(rng, nprng, n):
         info = {'basis': basis, 'nc': nc, 'npts': npts, 'seed_index': it}
         y64 = np.asarray(y, dtype=np.float64)
         w64 = np.asarray(w, dtype=np.float64)
+        lays = {nme: rng.choice(LAYOUTS1) for nme in ('x', 'y', 'invvar', 'inputans')}
+        lays['ia'] = rng.choice(['plain', 'strided'])
+        info['layouts'] = {k2: v for k2, v in lays.items() if v != 'plain'}
+        x, y, w = dress(x, lays['x']), dress(y, lays['y']), dress(w, lays['invvar'])
+        ia, ians = dress(ia, lays['ia']), dress(ians, lays['inputans'])
+        kw['invvar'] = w
+        if 'ia' in kw:
+            kw['ia'], kw['inputans'] = ia, ians
         stage = 'wls'
         try:
             snap = Snap(x=x, y=y, invvar=w, ia=ia, inputans=ians)
@@ -863,7 +990,10 @@ def fit_law_records(rng, nprng, n):
         except core.MachineryError:
             raise
         except Exception as ex:
-            recs.append(law(stage, 2 * 10**9, width=width, crash=True, exc=describe(ex), **info))
+            rec = law(stage, 2 * 10**9, width=width, crash=True, exc=describe(ex), **info)
+            if isinstance(ex, AssertionError) and lays['x'] == 'swapped':
+                rec['finding'] = 'D-C13-3'          # byte-swapped x: the dtype assertion of func_fit
+            recs.append(rec)
     return recs
 
 
@@ -927,6 +1057,14 @@ def tset_law_records(rng, nprng, n):
         info = {'basis': basis, 'nc': nc, 'nTrace': nt, 'nx': nx, 'jump': bool(jump), 'seed_index': it,
                 'limits': [repr(kw.get('xmin')), repr(kw.get('xmax'))],
                 'jumpargs': [repr(kw.get(kk)) for kk in ('xjumplo', 'xjumphi', 'xjumpval')]}
+        lays = {nme: rng.choice(LAYOUTS2) for nme in ('xpos', 'ypos', 'invvar', 'inmask')}
+        info['layouts'] = {k2: v for k2, v in lays.items() if v != 'plain'}
+        xpos, ypos = dress(xpos, lays['xpos']), dress(ypos, lays['ypos'])
+        invvar, inmask = dress(invvar, lays['invvar']), dress(inmask, lays['inmask'])
+        if 'invvar' in kw:
+            kw['invvar'] = invvar
+        if 'inmask' in kw:
+            kw['inmask'] = inmask
         stage = 'fitxy'
         try:
             snap = Snap(xpos=xpos, ypos=ypos, invvar=kw.get('invvar'), inmask=kw.get('inmask'))
@@ -1053,7 +1191,7 @@ def generate(gen, n, seed):
     return recs
 
 
-WIRE_DROP = ('info', 'conv', 'exc', 'fixture', 'origin', 'keywords')
+WIRE_DROP = ('info', 'conv', 'exc', 'fixture', 'origin', 'keywords', 'finding')          # ('layout' is sent: the spec ignores it)
 
 
 def record_direction(ctx):
@@ -1089,7 +1227,7 @@ def record_direction(ctx):
         brief = {kk: v for kk, v in rec.items() if kk not in ('vals', 'gvals', 'res', 'yfit', 'origin', 'exc')}
         report(ctx, ('record', rec['kind'], rec.get('basis'), bad[i].split(':')[0]),
                {'what': 'recorded %s rejected by Trace_TraceSetPoly (%s): %s' % (rec['kind'], bad[i], str(brief)[:220]),
-                'part': 'record', 'why': bad[i], 'record': rec})
+                'part': 'record', 'why': bad[i], 'record': rec}, finding=rec.get('finding'))
     ctx.sample({'recorded': {kk: v for kk, v in recs[0].items()}})
     ctx.sample({'law_instance': next(rec for rec in recs if rec['kind'] == 'law')})
 
@@ -1109,6 +1247,7 @@ def run(ctx):
         'round trip on the FITS fixtures): numpy.polynomial + numpy.linalg.lstsq are the independent oracle, the harness '
         'measures the discrepancy, the spec judges it (exploration, not model checking)',
         'trace sets are restricted to func in {legendre, chebyshev, poly} (the evaluators TraceSet offers)']
+    _ROT[0] = random.Random(ctx.seed)
     cfg = 'MC_TraceSetPoly_quick.cfg' if ctx.quick else 'MC_TraceSetPoly_thorough.cfg'
     # the model-checking run and the recording of real calls are independent: run TLC in a thread meanwhile
     box = {}
@@ -1188,11 +1327,11 @@ def replay(ctx, case):
         # re-run every convention on exactly these abscissae
         check_basis_group(ctx, case['basis'], int(case['m']), items)
     elif part == 'fit':
-        check_fit(ctx, untuple(case['call']), untuple(case['expected']))
+        check_fit(ctx, untuple(case['call']), untuple(case['expected']), only=case.get('conv'), layouts=case.get('layouts'))
     elif part == 'tset':
-        check_tset(ctx, untuple(case['call']), untuple(case['expected']))
+        check_tset(ctx, untuple(case['call']), untuple(case['expected']), only=case.get('conv'), layouts=case.get('layouts'))
     elif part == 'hist':
-        check_hist(ctx, untuple(case['call']), untuple(case['expected']))
+        check_hist(ctx, untuple(case['call']), untuple(case['expected']), layouts=case.get('layouts'))
     elif part == 'record':
         # re-make the record from the real code (same generator, same seed, same index) and let the spec judge it again
         o = case['record']['origin']
